@@ -541,3 +541,26 @@ func reachableBlocks(fn *ssa.Function) map[*ssa.BasicBlock]bool {
 
 // Reachable reports which blocks of fn are reachable from its entry.
 func Reachable(fn *ssa.Function) map[*ssa.BasicBlock]bool { return reachableBlocks(fn) }
+
+// PhiLeaves expands v through φ-nodes (transitively) into the set of non-φ
+// values that can flow into it; a non-φ value is its own single leaf.
+func PhiLeaves(v ssa.Value) []ssa.Value {
+	var out []ssa.Value
+	seen := map[ssa.Value]bool{}
+	var walk func(x ssa.Value)
+	walk = func(x ssa.Value) {
+		if x == nil || seen[x] {
+			return
+		}
+		seen[x] = true
+		if ph, ok := x.(*ssa.Phi); ok {
+			for _, e := range ph.Edges {
+				walk(e)
+			}
+			return
+		}
+		out = append(out, x)
+	}
+	walk(v)
+	return out
+}
